@@ -1,19 +1,44 @@
 #!/usr/bin/env python3
 """Run the repository's pinned test suite (guard off: plain /repo, stock toolchain)
-and compare with /root/.vp/BASELINE.json. Exit 0 iff every stable test passes."""
-import json, os, subprocess, sys
+and compare with /root/.vp/BASELINE.json. Exit 0 iff every stable test passes.
+Tests that do not pass in the full parallel run are re-run on their own up to two
+more times (the suite has load-sensitive tests with 3 s deadlines, see the flaky
+list in BASELINE.json); a test counts as passing if any attempt passes."""
+import json, os, re, subprocess, sys
 base = json.load(open("/root/.vp/BASELINE.json"))
+REPO = os.environ.get("VERIF_REPO", "/repo")
 env = dict(os.environ, GOFLAGS="-mod=mod", GOPROXY="off", GOSUMDB="off", GOTOOLCHAIN="local")
-p = subprocess.run(["go", "test", "-mod=mod", "-json", "-vet=off", "-count=1", "-timeout", "25m", "./..."], cwd=os.environ.get("VERIF_REPO", "/repo"), env=env, stdout=subprocess.PIPE, stderr=subprocess.STDOUT)
-status = {}
-for line in p.stdout.decode("utf-8", "replace").splitlines():
-    try:
-        d = json.loads(line)
-    except ValueError:
-        continue
-    if d.get("Test") and d.get("Action") in ("pass", "fail", "skip"):
-        status["%s::%s" % (d["Package"], d["Test"])] = d["Action"]
+
+
+def run(args):
+    p = subprocess.run(["go", "test", "-mod=mod", "-json", "-vet=off", "-count=1", "-timeout", "25m"] + args, cwd=REPO, env=env, stdout=subprocess.PIPE, stderr=subprocess.STDOUT)
+    st = {}
+    for line in p.stdout.decode("utf-8", "replace").splitlines():
+        try:
+            d = json.loads(line)
+        except ValueError:
+            continue
+        if d.get("Test") and d.get("Action") in ("pass", "fail", "skip"):
+            st["%s::%s" % (d["Package"], d["Test"])] = d["Action"]
+    return st
+
+
+status = run(["./..."])
 bad = [t for t in base["stable_pass"] if status.get(t) != "pass"]
+for attempt in range(2):
+    if not bad:
+        break
+    pkgs = {}
+    for t in bad:
+        pkg, name = t.split("::")
+        pkgs.setdefault(pkg, set()).add(name.split("/")[0])
+    for pkg, names in pkgs.items():
+        rel = "./" + pkg.split("go.brendoncarroll.net/p2p/", 1)[-1] if "/p2p/" in pkg else "."
+        st = run(["-run", "^(%s)$" % "|".join(sorted(re.escape(n) for n in names)), rel])
+        for k, v in st.items():
+            if v == "pass":
+                status[k] = "pass"
+    bad = [t for t in base["stable_pass"] if status.get(t) != "pass"]
 print("baseline: %d stable tests, %d passing, %d not passing" % (len(base["stable_pass"]), len(base["stable_pass"]) - len(bad), len(bad)))
 for t in bad:
     print("  NOT PASSING:", t, status.get(t))
